@@ -40,6 +40,7 @@ type sched struct {
 	files       map[*value]*memFile
 	fileOrder   []*value
 	hashes      []hashCall
+	selRot      int
 }
 
 type wgState struct{ n int }
@@ -327,7 +328,8 @@ func (i *interpreter) doSelect(fr *frame, instr *ssa.Select) value {
 			}
 		}
 		if len(ready) > 0 {
-			pick := ready[0]
+			sc.selRot++
+			pick := ready[sc.selRot%len(ready)]
 			if sc.schedChoice && len(ready) > 1 {
 				pick = ready[i.s.choose(len(ready))]
 			}
@@ -476,4 +478,68 @@ func init() {
 	}
 	externals["runtime.Gosched"] = func(fr *frame, a []value) value { fr.i.yield(false); return nil }
 	externals["time.Sleep"] = func(fr *frame, a []value) value { fr.i.yield(false); return nil }
+}
+
+// reflect.Select over interpreted channels (recv cases and default only, which is
+// what the merger uses).
+func init() {
+	externals["reflect.Select"] = func(fr *frame, a []value) value {
+		i := fr.i
+		sc := i.sc
+		cases := a[0].([]value)
+		type rc struct {
+			dir int64
+			ch  *gchan
+			et  types.Type
+			t   rtype
+		}
+		rcs := make([]rc, len(cases))
+		hasDefault := -1
+		for k, c := range cases {
+			st := c.(structure)
+			r := rc{dir: asInt64(st[0])}
+			if r.dir == 3 { // SelectDefault
+				hasDefault = k
+			} else {
+				chv := st[1]
+				if sv, ok := chv.(structure); ok && len(sv) == 2 && sv[1] != nil {
+					r.ch, _ = rV2V(chv).(*gchan)
+					r.t = rV2T(chv)
+					if ct, ok := r.t.t.Underlying().(*types.Chan); ok {
+						r.et = ct.Elem()
+					}
+				}
+				if r.dir == 1 {
+					panic(unsupported{"reflect.Select with a send case"})
+				}
+			}
+			rcs[k] = r
+		}
+		for {
+			var ready []int
+			for k, r := range rcs {
+				if r.dir == 2 && r.ch != nil && (len(r.ch.buf) > 0 || r.ch.slotFull || r.ch.closed) {
+					ready = append(ready, k)
+				}
+			}
+			if len(ready) > 0 {
+				// deterministic but fair: rotate among the ready cases (Go picks at random; a
+				// closed channel is always ready and must not starve the others)
+				sc.selRot++
+				pick := ready[sc.selRot%len(ready)]
+				if sc.schedChoice && len(ready) > 1 {
+					pick = ready[i.s.choose(len(ready))]
+				}
+				v, ok, _ := rcs[pick].ch.tryRecv(sc)
+				if !ok {
+					v = zero(rcs[pick].et)
+				}
+				return tuple{pick, makeReflectValue(rcs[pick].et, v), ok}
+			}
+			if hasDefault >= 0 {
+				return tuple{hasDefault, structure{rtype{nil}, nil}, false}
+			}
+			i.yield(true)
+		}
+	}
 }
